@@ -124,11 +124,15 @@ func (f *Frame) guardCheck(x *ssa.FieldAddr, stT types.Type, field string, st *S
 		os, _ := ot.Underlying().(*types.Struct)
 		var mu T
 		found := false
+		plain := false // sync.Mutex (no read mode) instead of sync.RWMutex
 		for k := 0; os != nil && k < os.NumFields(); k++ {
 			if os.Field(k).Name() != g.MuField {
 				continue
 			}
 			found = true
+			if mn := namedOf(os.Field(k).Type()); mn != nil && mn.Obj().Name() == "Mutex" {
+				plain = true
+			}
 			if _, isPtr := os.Field(k).Type().Underlying().(*types.Pointer); isPtr {
 				mu = u.loadField(st, structKey(ot), os.Field(k), owner.T).T
 			} else {
@@ -140,6 +144,10 @@ func (f *Frame) guardCheck(x *ssa.FieldAddr, stT types.Type, field string, st *S
 		}
 		w := sel(u.heapGet(st, "F:sync.RWMutex.writerSem", arrSort(SInt, SInt)), mu)
 		r := sel(u.heapGet(st, "F:sync.RWMutex.readerSem", arrSort(SInt, SInt)), mu)
+		if plain {
+			w = sel(u.heapGet(st, "F:sync.Mutex.sema", arrSort(SInt, SInt)), mu)
+			r = intLit(0)
+		}
 		write := isWriteAccess(x)
 		var goal T
 		kind := "read"
